@@ -1,5 +1,6 @@
 import Rangers.Proofs.Bls14Curve
 import Rangers.Props.C14U
+import Rangers.Model.Bls14Hash
 /-!
 # C14, part 5 — the model's G1 arithmetic is the elliptic-curve group law
 
@@ -128,6 +129,27 @@ theorem other_key_sig_rejected (sk sk' r : ℕ) (hsk : sk < 2 ^ 512) (hsk' : sk'
     (fun h0 => hm0 (ι_inj hm .inf hv ⟨rfl, rfl⟩ (by
       have h0' : ι hm = 0 := h0
       rw [h0']; rfl)))
+
+/-- **The identity signature is rejected for every hashed message**: `H(m)` is a non-identity curve
+    point for every `m` (postcondition of the unbounded loop), so under a key with `r ∤ sk` the honest
+    signature `sk·H(m)` is not the identity, and the 64-zero-byte signature does not verify. (With a
+    bounded loop falling back to the identity this fails: both pairings would be 1.) -/
+theorem identity_sig_rejected_for_hashed_message (sk r : ℕ) (hsk : sk < 2 ^ 512) (m : Bytes) (hm : Pt)
+    (hh : hashToG1 m = some hm) (pk : Pt2) (hpk : κ pk = sk • κ g2Gen)
+    (hr : r.Prime) (hexp : ∀ a : W.Point, r • a = 0) (hnd : ¬ r ∣ sk) :
+    verifySig (curveInterp e bil κ nd).pairEq hm (.pt pk) (.pt .inf) = .reject ∧
+    verifySig (curveInterp e bil κ nd).pairEq hm (.pt pk) (deserializeSign (List.replicate 64 0)) = .reject := by
+  have hv : Valid hm := hashToG1_onCurve m hm hh
+  have hne : hm ≠ .inf := hashToG1_ne_identity m hm hh
+  have hι : ι hm ≠ 0 := fun h0 => hne (ι_inj hm .inf hv ⟨rfl, rfl⟩ (by rw [h0]; rfl))
+  have H := sign_is_honest e bil κ nd sk hsk hm hv pk hpk
+  have hnz : sk • (curveInterp e bil κ nd).ι hm ≠ 0 := by
+    intro h0
+    exact hι (eq_zero_of_nsmul_of_prime r sk hr (ι hm) (hexp _) h0 hnd)
+  have h1 := identity_rejected _ H hnz
+  refine ⟨h1, ?_⟩
+  have : deserializeSign (List.replicate 64 0) = .pt .inf := by decide
+  rw [this]; exact h1
 
 end pairing
 
